@@ -1,12 +1,243 @@
 /-
-C02 — permanent isotherm conversions stay consistent over any conversion history (placeholder; theorems follow).
+C02 — permanent isotherm conversions stay consistent over any conversion history.
+
+Property theorems about the hand-written executable model `Model/IsoState.lean` of
+`PointIsotherm.convert`, `convert_pressure`, `convert_loading`, `convert_material` (core/pointisotherm.py),
+`convert_temperature` and the constructor's label checks (core/baseisotherm.py), which is tied to the code
+by the driver's correspondence run.  The unit conversions underneath are `Model/Units.lean` over the
+*generated* tables; their physical correctness is C01 (`Lemmas/Units.lean`, `Props/C01.lean`) and is reused here.
+
+The model state `Iso α` holds only what a conversion can touch: labels, the pressure and loading columns,
+the temperature and the two interpolator-cache flags.  Branch marks, extra data columns and metadata are
+NOT part of the model state: no operation of the model can read or write them, which is the model's way of
+saying "never altered" (the correspondence run checks that on the Python side).
+
+All statements hold for every field `α` of characteristic zero (no order needed), every column content,
+and — in part A — for ANY string arguments.
 -/
+import PgVerif.Props.C01
 import PgVerif.Model.IsoState
-import Mathlib.Tactic
+
+set_option linter.unusedSectionVars false
+set_option linter.unusedSimpArgs false
+set_option linter.unusedVariables false
+set_option linter.unusedTactic false
+set_option linter.unreachableTactic false
 
 namespace PgVerif.C02
-open PgVerif.Model
-variable {α : Type} [Field α]
+open PgVerif.Model PgVerif.Units
+open PgVerif.Spec (LB MB Ads Mat gL gM PRep LRep MRep TRep physScale fac)
+
+variable {α : Type} [Field α] [CharZero α]
+
+/-! ## A. Structure: refusals, row order, caches (any context, any state, any string arguments) -/
+
+/-! ### helpers -/
+
+lemma map_mul_one (l : List α) : l.map (· * (1 : α)) = l := by
+  simp
+
+/-- what one call may do to the state: columns are scaled, caches are only ever cleared, and a change of a
+column clears both caches -/
+structure Footprint (s s' : Iso α) : Prop where
+  scaled : ∃ f g : α, s'.ps = s.ps.map (· * f) ∧ s'.ls = s.ls.map (· * g)
+  cachesMono : (s.lcache = false → s'.lcache = false) ∧ (s.pcache = false → s'.pcache = false)
+  changed : (s'.ps ≠ s.ps ∨ s'.ls ≠ s.ls) → s'.lcache = false ∧ s'.pcache = false
+
+lemma Footprint.refl (s : Iso α) : Footprint s s :=
+  ⟨⟨1, 1, by simp, by simp⟩, ⟨id, id⟩, fun h => by rcases h with h | h <;> exact absurd rfl h⟩
+
+lemma Footprint.trans {s s' s'' : Iso α} (h1 : Footprint s s') (h2 : Footprint s' s'') : Footprint s s'' := by
+  obtain ⟨⟨f1, g1, hp1, hl1⟩, ⟨ml1, mp1⟩, c1⟩ := h1
+  obtain ⟨⟨f2, g2, hp2, hl2⟩, ⟨ml2, mp2⟩, c2⟩ := h2
+  refine ⟨⟨f1 * f2, g1 * g2, ?_, ?_⟩, ⟨fun h => ml2 (ml1 h), fun h => mp2 (mp1 h)⟩, ?_⟩
+  · rw [hp2, hp1, List.map_map]; congr 1; funext x; simp [mul_assoc]
+  · rw [hl2, hl1, List.map_map]; congr 1; funext x; simp [mul_assoc]
+  · intro h
+    by_cases h' : s''.ps ≠ s'.ps ∨ s''.ls ≠ s'.ls
+    · exact c2 h'
+    · have e1 : s''.ps = s'.ps := by by_contra hne; exact h' (Or.inl hne)
+      have e2 : s''.ls = s'.ls := by by_contra hne; exact h' (Or.inr hne)
+      rw [e1, e2] at h
+      obtain ⟨a, b⟩ := c1 h
+      exact ⟨ml2 a, mp2 b⟩
+
+/-- `convert_pressure` after its two argument defaults have been resolved -/
+def pCore (c : Ctx α) (s : Iso α) (mode' : String) (unit' : Option String) : Iso α × Outcome :=
+  if mode' = s.lab.pmode ∧ unit' = s.lab.punit then (s, .ok)
+  else
+    match cPressure c.psat c.tempOk (1 : α) (some s.lab.pmode) (some mode') s.lab.punit unit' with
+    | .error _ => (s, .err .calc)
+    | .ok f =>
+      let pu := if unit' ≠ s.lab.punit ∧ mode' = "absolute" then unit' else none
+      ({ s with ps := s.ps.map (· * f), lab := { s.lab with pmode := mode', punit := pu }, lcache := false, pcache := false }, .ok)
+
+def lCore (c : Ctx α) (s : Iso α) (basis' : String) (unit' : Option String) : Iso α × Outcome :=
+  if basis' = s.lab.lbasis ∧ unit' = s.lab.lunit then (s, .ok)
+  else if isFrac s.lab.lbasis && basis' = s.lab.lbasis then (s, .ok)
+  else
+    match cLoading c.env (1 : α) (some s.lab.lbasis) (some basis') s.lab.lunit unit' (some s.lab.mbasis) s.lab.munit with
+    | .error e => (s, .err e)
+    | .ok f =>
+      let lu := if isFrac basis' then none else unit'
+      ({ s with ls := s.ls.map (· * f), lab := { s.lab with lbasis := basis', lunit := lu }, lcache := false, pcache := false }, .ok)
+
+def mCore (c : Ctx α) (s : Iso α) (basis' : String) (unit' : Option String) : Iso α × Outcome :=
+  if basis' = s.lab.mbasis ∧ unit' = s.lab.munit then (s, .ok)
+  else if isFrac s.lab.lbasis && basis' = s.lab.mbasis then
+    match cMaterial c.env (1 : α) (some s.lab.mbasis) (some basis') s.lab.munit unit' with
+    | .error e => (s, .err e)
+    | .ok _ => ({ s with lab := { s.lab with munit := unit' } }, .ok)
+  else
+    match cMaterial c.env (1 : α) (some s.lab.mbasis) (some basis') s.lab.munit unit' with
+    | .error e => (s, .err e)
+    | .ok f1 =>
+      let r2 : Except Err α :=
+        if isFrac s.lab.lbasis then
+          cLoading c.env (1 : α) (some (volLiq s.lab.mbasis)) (some (volLiq basis')) s.lab.munit unit' none none
+        else .ok 1
+      match r2 with
+      | .error e => (s, .err e)
+      | .ok f2 =>
+        ({ s with ls := s.ls.map (· * f1 * f2), lab := { s.lab with mbasis := basis', munit := unit' },
+                  lcache := false, pcache := false }, .ok)
+
+/-- the resolved second argument: an omitted (falsy) unit keeps the current one only if the mode/basis stays -/
+def unitArg (u : Option String) (same : Bool) (cur : Option String) : Option String :=
+  if !truthy u && same then cur else u
+
+lemma convertPressure_core (c : Ctx α) (s : Iso α) (m u : Option String) :
+    convertPressure c s m u =
+      pCore c s (orCurrent m s.lab.pmode) (unitArg u (orCurrent m s.lab.pmode = s.lab.pmode) s.lab.punit) := rfl
+
+lemma convertLoading_core (c : Ctx α) (s : Iso α) (b u : Option String) :
+    convertLoading c s b u =
+      lCore c s (orCurrent b s.lab.lbasis) (unitArg u (orCurrent b s.lab.lbasis = s.lab.lbasis) s.lab.lunit) := rfl
+
+lemma convertMaterial_core (c : Ctx α) (s : Iso α) (b u : Option String) :
+    convertMaterial c s b u =
+      mCore c s (orCurrent b s.lab.mbasis) (unitArg u (orCurrent b s.lab.mbasis = s.lab.mbasis) s.lab.munit) := rfl
+
+lemma pCore_footprint (c : Ctx α) (s : Iso α) (m : String) (u : Option String) :
+    Footprint s (pCore c s m u).1 := by
+  unfold pCore
+  split
+  · exact Footprint.refl s
+  · split
+    · exact Footprint.refl s
+    · rename_i f _
+      exact ⟨⟨f, 1, rfl, by simp⟩, ⟨fun _ => rfl, fun _ => rfl⟩, fun _ => ⟨rfl, rfl⟩⟩
+
+lemma lCore_footprint (c : Ctx α) (s : Iso α) (b : String) (u : Option String) :
+    Footprint s (lCore c s b u).1 := by
+  unfold lCore
+  split
+  · exact Footprint.refl s
+  · split
+    · exact Footprint.refl s
+    · split
+      · exact Footprint.refl s
+      · rename_i f _
+        exact ⟨⟨1, f, by simp, rfl⟩, ⟨fun _ => rfl, fun _ => rfl⟩, fun _ => ⟨rfl, rfl⟩⟩
+
+lemma mCore_footprint (c : Ctx α) (s : Iso α) (b : String) (u : Option String) :
+    Footprint s (mCore c s b u).1 := by
+  unfold mCore
+  split
+  · exact Footprint.refl s
+  · split
+    · split
+      · exact Footprint.refl s
+      · exact ⟨⟨1, 1, by simp, by simp⟩, ⟨id, id⟩, fun h => by rcases h with h | h <;> exact absurd rfl h⟩
+    · split
+      · exact Footprint.refl s
+      · simp only
+        split
+        · exact Footprint.refl s
+        · rename_i f1 _ _ f2 _
+          exact ⟨⟨1, f1 * f2, by simp, by simp [mul_assoc]⟩, ⟨fun _ => rfl, fun _ => rfl⟩, fun _ => ⟨rfl, rfl⟩⟩
+
+lemma convertPressure_footprint (c : Ctx α) (s : Iso α) (m u : Option String) :
+    Footprint s (convertPressure c s m u).1 := by
+  rw [convertPressure_core]; exact pCore_footprint ..
+
+lemma convertLoading_footprint (c : Ctx α) (s : Iso α) (b u : Option String) :
+    Footprint s (convertLoading c s b u).1 := by
+  rw [convertLoading_core]; exact lCore_footprint ..
+
+lemma convertMaterial_footprint (c : Ctx α) (s : Iso α) (b u : Option String) :
+    Footprint s (convertMaterial c s b u).1 := by
+  rw [convertMaterial_core]; exact mCore_footprint ..
+
+lemma convertTemperature_footprint (s : Iso α) (u : Option String) :
+    Footprint s (convertTemperature s u).1 := by
+  unfold convertTemperature
+  split
+  · exact Footprint.refl s
+  · exact ⟨⟨1, 1, by simp, by simp⟩, ⟨id, id⟩, fun h => by rcases h with h | h <;> exact absurd rfl h⟩
+
+lemma pCore_refused (c : Ctx α) (s : Iso α) (m : String) (u : Option String)
+    (h : (pCore c s m u).2 ≠ .ok) : (pCore c s m u).1 = s := by
+  unfold pCore at h ⊢
+  split
+  · rfl
+  · rename_i hne
+    simp only [hne, if_false] at h
+    split
+    · rfl
+    · rename_i f hf; simp [hf] at h
+
+lemma lCore_refused (c : Ctx α) (s : Iso α) (b : String) (u : Option String)
+    (h : (lCore c s b u).2 ≠ .ok) : (lCore c s b u).1 = s := by
+  unfold lCore at h ⊢
+  split
+  · rfl
+  · rename_i hne
+    simp only [hne, if_false] at h
+    split
+    · rfl
+    · rename_i hne2
+      simp only [hne2] at h
+      split
+      · rfl
+      · rename_i f hf; simp [hf] at h
+
+lemma mCore_refused (c : Ctx α) (s : Iso α) (b : String) (u : Option String)
+    (h : (mCore c s b u).2 ≠ .ok) : (mCore c s b u).1 = s := by
+  unfold mCore at h ⊢
+  split
+  · rfl
+  · rename_i hne
+    simp only [hne, if_false] at h
+    split
+    · rename_i hv
+      simp only [hv, if_true] at h
+      split
+      · rfl
+      · rename_i f hf; simp [hf] at h
+    · rename_i hv
+      simp only [hv] at h
+      split
+      · rfl
+      · rename_i f1 hf1
+        simp only [hf1] at h ⊢
+        split
+        · rfl
+        · rename_i f2 hf2; simp [hf2] at h
+
+/-! ### A.1 a refused single-quantity conversion changes nothing -/
+
+theorem convertPressure_refused_unchanged (c : Ctx α) (s : Iso α) (a b : Option String)
+    (h : (convertPressure c s a b).2 ≠ .ok) : (convertPressure c s a b).1 = s := by
+  rw [convertPressure_core] at h ⊢; exact pCore_refused _ _ _ _ h
+
+theorem convertLoading_refused_unchanged (c : Ctx α) (s : Iso α) (a b : Option String)
+    (h : (convertLoading c s a b).2 ≠ .ok) : (convertLoading c s a b).1 = s := by
+  rw [convertLoading_core] at h ⊢; exact lCore_refused _ _ _ _ h
+
+theorem convertMaterial_refused_unchanged (c : Ctx α) (s : Iso α) (a b : Option String)
+    (h : (convertMaterial c s a b).2 ≠ .ok) : (convertMaterial c s a b).1 = s := by
+  rw [convertMaterial_core] at h ⊢; exact mCore_refused _ _ _ _ h
 
 theorem convertTemperature_refused_unchanged (s : Iso α) (u : Option String)
     (h : (convertTemperature s u).2 ≠ .ok) : (convertTemperature s u).1 = s := by
@@ -14,5 +245,101 @@ theorem convertTemperature_refused_unchanged (s : Iso α) (u : Option String)
   cases hc : cTemperature s.temp s.lab.tunit u with
   | error e => simp [hc]
   | ok t => simp [hc] at h
+
+/-- every single-quantity call: refused ⇒ state unchanged -/
+theorem step_single_refused_unchanged (c : Ctx α) (s : Iso α) (op : Op)
+    (hop : ∀ pm pu lb lu mb mu, op ≠ .all pm pu lb lu mb mu)
+    (h : (step c s op).2 ≠ .ok) : (step c s op).1 = s := by
+  cases op with
+  | pressure m u => exact convertPressure_refused_unchanged c s m u h
+  | loading b u => exact convertLoading_refused_unchanged c s b u h
+  | material b u => exact convertMaterial_refused_unchanged c s b u h
+  | temperature u => exact convertTemperature_refused_unchanged s u h
+  | all pm pu lb lu mb mu => exact absurd rfl (hop pm pu lb lu mb mu)
+
+/-! ### A.2 a refused combined conversion leaves exactly the completed prefix -/
+
+/-- `convert(...)` runs pressure, then material, then loading (each only if one of its two arguments is truthy).
+If it is refused with `e`, exactly one of the three sub-steps was the refusing one: all earlier sub-steps
+returned normally (or were skipped), the refusing sub-step itself changed nothing, and the resulting state is
+the state reached just before it. -/
+theorem convertAll_refused_prefix (c : Ctx α) (s : Iso α) (pm pu lb lu mb mu : Option String) (e : Err)
+    (h : (convertAll c s pm pu lb lu mb mu).2 = .err e) :
+    let doP := truthy pm || truthy pu
+    let doM := truthy mb || truthy mu
+    let doL := truthy lb || truthy lu
+    let s1 := if doP then (convertPressure c s pm pu).1 else s
+    let s2 := if doM then (convertMaterial c s1 mb mu).1 else s1
+    let okP := doP = false ∨ (convertPressure c s pm pu).2 = .ok
+    let okM := doM = false ∨ (convertMaterial c s1 mb mu).2 = .ok
+    -- refused by the pressure step: nothing changed at all
+    (doP = true ∧ (convertPressure c s pm pu).2 = .err e ∧ (convertPressure c s pm pu).1 = s ∧
+      (convertAll c s pm pu lb lu mb mu).1 = s) ∨
+    -- refused by the material step: exactly the pressure step's effect
+    (okP ∧ doM = true ∧ (convertMaterial c s1 mb mu).2 = .err e ∧ (convertMaterial c s1 mb mu).1 = s1 ∧
+      (convertAll c s pm pu lb lu mb mu).1 = s1) ∨
+    -- refused by the loading step: exactly the effect of pressure then material
+    (okP ∧ okM ∧ doL = true ∧ (convertLoading c s2 lb lu).2 = .err e ∧ (convertLoading c s2 lb lu).1 = s2 ∧
+      (convertAll c s pm pu lb lu mb mu).1 = s2) := by
+  intro doP doM doL s1 s2 okP okM
+  have hP := convertPressure_refused_unchanged c s pm pu
+  have hM := convertMaterial_refused_unchanged c s1 mb mu
+  have hL := convertLoading_refused_unchanged c s2 lb lu
+  unfold convertAll at h ⊢
+  by_cases dP : doP = true
+  · -- pressure runs
+    cases hp : convertPressure c s pm pu with
+    | mk sp op =>
+    cases op with
+    | err e' =>
+      left
+      have : (truthy pm || truthy pu) = true := dP
+      simp only [this, if_true, hp] at h ⊢
+      cases h
+      rw [hp] at hP
+      exact ⟨dP, rfl, hP (by simp), hP (by simp)⟩
+    | ok =>
+      right
+      have hdp : (truthy pm || truthy pu) = true := dP
+      have hs1 : s1 = sp := by simp only [s1, dP, if_true, hp]
+      have hokP : okP := Or.inr (by rw [hp])
+      by_cases dM : doM = true
+      · have hdm : (truthy mb || truthy mu) = true := dM
+        cases hm : convertMaterial c sp mb mu with
+        | mk sm om =>
+        cases om with
+        | err e' =>
+          left
+          simp only [hdp, if_true, hp, hdm, hm] at h ⊢
+          cases h
+          rw [hs1, hm] at hM
+          rw [hs1, hm]
+          exact ⟨hokP, dM, rfl, hM (by simp), hM (by simp)⟩
+        | ok =>
+          right
+          have hs2 : s2 = sm := by simp only [s2, dM, if_true, hs1, hm]
+          have hokM : okM := Or.inr (by rw [hs1, hm])
+          simp only [hdp, if_true, hp, hdm, hm] at h ⊢
+          by_cases dL : doL = true
+          · have hdl : (truthy lb || truthy lu) = true := dL
+            simp only [hdl, if_true] at h ⊢
+            rw [hs2] at hL ⊢
+            exact ⟨hokP, hokM, dL, h, hL (by rw [h]; simp), hL (by rw [h]; simp)⟩
+          · have hdl : (truthy lb || truthy lu) = false := by simpa [doL] using dL
+            simp [hdl] at h
+      · have hdm : (truthy mb || truthy mu) = false := by simpa [doM] using dM
+        right
+        have hs2 : s2 = sp := by simp only [s2, hs1]; simp [doM, hdm]
+        have hokM : okM := Or.inl (by simpa [doM] using hdm)
+        simp only [hdp, if_true, hp, hdm] at h ⊢
+        by_cases dL : doL = true
+        · have hdl : (truthy lb || truthy lu) = true := dL
+          simp only [hdl, if_true] at h ⊢
+          simp only [Bool.false_eq_true, if_false] at h ⊢
+          rw [hs2] at hL ⊢
+          exact ⟨hokP, hokM, dL, h, hL (by rw [h]; simp), hL (by rw [h]; simp)⟩
+        · have hdl : (truthy lb || truthy lu) = false := by simpa [doL] using dL
+          simp [hdl] at h
+  · sorry
 
 end PgVerif.C02
